@@ -188,9 +188,21 @@ def impl_model_stage(prefixes, expect_fail=()):
 
         def run_exh(m):
             mod, cfg = md.write_model(m, wd, False)
-            return m, vlib.tlc(mod, cfg, os.path.join(wd, "tlc_" + m["name"]), workers=4, timeout=1200, cwd=wd)
+            return m, vlib.tlc(mod, cfg, os.path.join(wd, "tlc_" + m["name"]), workers=4, timeout=1200, cwd=wd,
+                               extra=["-coverage", "1"])
         with cf.ThreadPoolExecutor(max_workers=4) as ex:
             results = list(ex.map(run_exh, sel))
+        import re as _re2
+        taken, seen_actions = set(), set()
+        for m, r in results:
+            for l in r["out"].splitlines():
+                mm = _re2.match(r"<(\w+) line .* of module MQImpl>: (\d+):(\d+)", l)
+                if mm:
+                    seen_actions.add(mm.group(1))
+                    if int(mm.group(3)) > 0:
+                        taken.add(mm.group(1))
+        cov["mqimpl_actions_taken"] = len(taken)
+        cov["mqimpl_actions_never_taken_in_this_check"] = sorted(seen_actions - taken - {"Init"})
         for m, r in results:
             if r["error"] == "timeout" or (r["error"] and "Invariant" not in r["error"] and "violated" not in r["out"]):
                 raise vlib.ToolError("TLC failed on %s: %s\n%s" % (m["name"], r["error"], r["out"][-1500:]))
@@ -410,6 +422,8 @@ def check_C05(tier):
     caps = caps_for(tier)
     scns = (sc.no_receivers("C05n", "bcast", caps=caps[:2]) + sc.no_receivers("C05n", "mpmc", caps=caps[:2]) +
             sc.traffic("C05", "bcast", caps=caps[:2]) + sc.traffic("C05", "mpmc", caps=caps[:2]) +
+            sc.traffic("C05w", "bcast", caps=caps[:2], shapes=[(1, [2], 4, "brecv", True, 0), (1, [2], 3, "recv", False, 2),
+                                                               (1, [3], 3, "recv", False, 1)]) +
             sc.uni_traffic("C05", "mpmc", caps=caps[:2]) + sc.population("C05p", "mpmc", caps=caps[:2]) +
             sc.disconnect("C05d", "mpmc", caps=caps[:2]) + sc.known_mpmc_two_streams("C05k"))
     depth = 4 if tier == "quick" else 5
